@@ -141,8 +141,9 @@ type CertificateContent struct {
 type CertificateValidity struct {
 	From     time.Time
 	Until    time.Time
-	IsStatic bool //does it have an explicit "from"?
-	IsSet    bool //if false, it should inherit default values
+	IsStatic bool   //does it have an explicit "from"?
+	IsSet    bool   //if false, it should inherit default values
+	Duration string //the configured duration, if "Until" was derived from one
 }
 
 type Manipulations struct {
@@ -161,13 +162,28 @@ func (c CertificateContent) HashSum() []byte {
 	//c is not a pointer, so this change is temporary
 	if !c.Validity.IsStatic || !c.Validity.IsSet {
 		c.Validity.From = time.Time{}
-		c.Validity.Until = time.Time{}
+
+		//an absolute end date is part of the configuration even without "from";
+		//an end relative to the time of the run is represented by its duration
+		if !c.Validity.IsSet || len(c.Validity.Duration) > 0 {
+			c.Validity.Until = time.Time{}
+		}
 	}
 	c.Profile = ""
 	c.Alias = ""
 
+	//extension configs of different kinds can marshal to the same json
+	//(e.g. when only "raw" is set), so the kind must be hashed as well
+	extensionOids := make([]string, len(c.Extensions))
+	for i, ext := range c.Extensions {
+		extensionOids[i] = ext.Oid().String()
+	}
+
 	//marshal c to json
-	b, err := json.Marshal(c)
+	b, err := json.Marshal(struct {
+		CertificateContent
+		ExtensionOids []string
+	}{c, extensionOids})
 	if err != nil {
 		panic("can't marshal struct to json")
 	}
